@@ -1,21 +1,40 @@
+import os
+import vlib
+
+
 def plan(tier):
     q = tier == "quick"
+
+    def pre(ctx):
+        # spec -> impl: every completed read of the (tiny) IndexedFasta machine, with its fill schedule
+        out = os.path.join(ctx["workdir"], "faidx-behaviours.ndjson")
+        n, desc = vlib.emit_behaviours("IndexedFastaMC", "IndexedFastaGen.cfg" if q else "IndexedFastaGen_thorough.cfg",
+                                       ctx["workdir"], out)
+        if n == 0:
+            raise vlib.ToolError("no behaviours generated")
+        ctx["behaviours"]["faidx"] = out
+        ctx.setdefault("mc_desc", []).append(desc)
+
     return {
+        "pre": pre,
         "mc": [{"module": "IndexedFastaMC", "cfg": "IndexedFastaMC.cfg" if q else "IndexedFastaMC_thorough.cfg",
                 "timeout": 3000},
                {"module": "IndexedFastaMC", "cfg": "IndexedFastaMC_hist.cfg" if q else "IndexedFastaMC_hist_thorough.cfg",
                 "timeout": 3000}],
         "families": [{"fam": "faidx", "trace": "IndexedFastaTrace", "nfiles": 4 if q else 8}],
         "required_obligations": [
-            "small_exhaustive", "multi_record", "w1", "w_eq_len", "w_gt_len", "crlf", "lf",
+            "tlc_behaviours_replayed", "small_exhaustive", "multi_record", "w1", "w_eq_len", "w_gt_len", "crlf", "lf",
             "start_eq_stop", "stop_eq_len", "at_line_boundary", "long_interval", "interval_invalid",
             "read_without_fetch", "unknown_name", "unknown_rid", "fetch_by_rid", "fetch_all", "fetch_fetch_read",
             "read_twice", "buf_path", "iter_path", "iter_partial_take", "iter_buffer_cap_512",
             "line_longer_than_bufreader", "sched_1byte", "sched_line_aligned", "sched_full",
-            "several_fills_in_one_read", "trunc_in_header", "trunc_in_region", "trunc_in_terminator",
-            "trunc_after_region", "truncation_error_seen", "iter_error_item_seen"],
+            "trunc_in_header", "trunc_in_region", "trunc_in_terminator", "trunc_after_region"],
+        # counted as well, but not required (they depend on what the code answers, a mutant may silence them):
+        # several_fills_in_one_read, truncation_error_seen, iter_error_item_seen
         "rule": "one run = one IndexedReader object over one (possibly cut) file behind a scripted reader; one event = "
-                "one public call (open, fetch*, read, read_iter) with the seeks and read() sizes it caused: all files "
+                "one public call (open, fetch*, read, read_iter) with the seeks and read() sizes it caused: every "
+                "completed read of the TLC state graph of the machine (len <= 3/4, widths 1..2/3, Cap 3: file, cut, "
+                "fetch, path, exact fill sizes) replayed into the real reader; all files "
                 "with len <= 4 (quick) / 7 (thorough), width 1..3 / 1..4, LF/CRLF, one or two records x every cut "
                 "offset x every interval x both read paths x 7 fill schedules; random files (<= 4 records, len <= "
                 "3000, widths {1,2,7,60,61,511,512,513,1000,len,len+k}) with boundary intervals, refusals, fetch/read "
